@@ -317,6 +317,11 @@ type ReplayFile struct {
 	Plan     *Plan     `json:"plan"`
 	OrigOps  int       `json:"orig_ops"`
 	Log      []string  `json:"log"`
+	// Tries > 1: the violation did not recur on every execution of this plan,
+	// because the program under test itself makes a choice the simulator does not
+	// own (Go's select among several ready cases, map iteration order); a replay
+	// executes the plan up to Tries times
+	Tries int `json:"tries,omitempty"`
 }
 
 type Summary struct {
@@ -603,11 +608,21 @@ func TestSim(t *testing.T) {
 				fin = runOnce(t, c, min)
 				v = hasClass(fin, cls)
 			}
+			tries := 0
+			if v == nil && !c.RaceMode {
+				// the same plan, executed again, did not fail: either the harness is
+				// not deterministic or the program makes a random choice of its own
+				for k := 0; k < 16 && v == nil; k++ {
+					fin = runOnce(t, c, min)
+					v = hasClass(fin, cls)
+				}
+				tries = 40
+			}
 			if v == nil {
-				sum.Harness = fmt.Sprintf("violation %s at run index %d seed %d did not recur on immediate re-execution (nondeterminism in harness)", cls, idx, seed)
+				sum.Harness = fmt.Sprintf("violation %s at run index %d seed %d did not recur in 17 re-executions (nondeterminism in harness)", cls, idx, seed)
 				break
 			}
-			rf := &ReplayFile{Check: id, BaseSeed: base, RunIndex: idx, Expect: *v, Plan: min, OrigOps: len(plan.Ops), Log: fin.Log}
+			rf := &ReplayFile{Check: id, BaseSeed: base, RunIndex: idx, Expect: *v, Plan: min, OrigOps: len(plan.Ops), Log: fin.Log, Tries: tries}
 			b, _ := json.MarshalIndent(rf, "", " ")
 			path := filepath.Join(replayDir, fmt.Sprintf("%s-%d-%d.json", id, base, idx))
 			_ = os.MkdirAll(replayDir, 0o755)
@@ -656,6 +671,9 @@ func replay(t *testing.T, c *Check, path string) {
 		t.Fatalf("HARNESS: %v", err)
 	}
 	tries := int(envInt("VERIF_REPLAY_TRIES", 1))
+	if rf.Tries > tries {
+		tries = rf.Tries
+	}
 	for i := 0; i < tries; i++ {
 		out := runOnce(t, c, rf.Plan)
 		if out.Harness != "" {
